@@ -296,6 +296,7 @@ impl Failure {
                 format!("panic:{short}")
             }
             Failure::Deadlock(_) => "deadlock".into(),
+            Failure::StepBudget(m) if m.contains(WATCHDOG_MSG) => "hang-watchdog".into(),
             Failure::StepBudget(_) => "step-budget".into(),
         }
     }
@@ -428,6 +429,16 @@ thread_local! {
     static EXEC: std::cell::RefCell<Option<Executor>> = const { std::cell::RefCell::new(None) };
 }
 
+/// Watchdog for run-away loops that never reach a scheduling point or a hook (the step budget
+/// cannot see those): a simulated execution that does not finish within this many wall-clock
+/// seconds is reported as a hang and its executor thread is abandoned. Ordinary executions take
+/// milliseconds to a few seconds, so the limit is not a timing oracle.
+pub fn watchdog_secs() -> u64 {
+    std::env::var("VERIF_WATCHDOG_S").ok().and_then(|s| s.parse().ok()).unwrap_or(600)
+}
+
+pub const WATCHDOG_MSG: &str = "cfr-verif: watchdog: the simulated execution did not finish";
+
 fn submit(job: Job) -> Done {
     EXEC.with(|e| {
         let mut e = e.borrow_mut();
@@ -443,7 +454,15 @@ fn submit(job: Job) -> Done {
         }
         let ex = e.as_ref().unwrap();
         ex.tx.send(job).expect("executor thread gone");
-        ex.rx.recv().expect("executor thread gone")
+        match ex.rx.recv_timeout(std::time::Duration::from_secs(watchdog_secs())) {
+            Ok(d) => d,
+            Err(std::sync::mpsc::RecvTimeoutError::Timeout) => {
+                // abandon the spinning executor; the next execution gets a fresh one
+                *e = None;
+                Done { out: SchedOut::default(), failure: Some(format!("{WATCHDOG_MSG} within {} s", watchdog_secs())) }
+            }
+            Err(std::sync::mpsc::RecvTimeoutError::Disconnected) => panic!("executor thread gone"),
+        }
     })
 }
 
@@ -466,7 +485,7 @@ pub fn simulate<T: Send + 'static>(spec: &SchedSpec, f: impl FnOnce() -> T + Sen
         Some(m) => {
             if m.contains("deadlock") {
                 Err(Failure::Deadlock(m))
-            } else if m.contains(cfr_verif_seam::STEP_BUDGET_MSG) || m.contains("exceeded max_steps") {
+            } else if m.contains(cfr_verif_seam::STEP_BUDGET_MSG) || m.contains("exceeded max_steps") || m.contains(WATCHDOG_MSG) {
                 Err(Failure::StepBudget(m))
             } else {
                 Err(Failure::Panic(m))
